@@ -553,6 +553,12 @@ func origins(v ssa.Value) []ssa.Value {
 					}
 					return
 				}
+				if a, ok := x.X.(*ssa.Alloc); ok {
+					if sv := singleStoreCell(a); sv != nil {
+						walk(sv)
+						return
+					}
+				}
 			}
 		}
 		out = append(out, v)
@@ -765,4 +771,44 @@ func isBoolish(v ssa.Value) bool {
 		return true
 	}
 	return false
+}
+
+// singleStoreCell: a cell captured by closures but assigned exactly once (in its own function, before any
+// closure is made) and never assigned by the closures: its loads all yield that value.
+func singleStoreCell(a *ssa.Alloc) ssa.Value {
+	var val ssa.Value
+	n := 0
+	for _, r := range refs(a) {
+		switch x := r.(type) {
+		case *ssa.Store:
+			if x.Addr != ssa.Value(a) {
+				return nil
+			}
+			n++
+			val = x.Val
+		case *ssa.UnOp:
+			if x.Op != token.MUL {
+				return nil
+			}
+		case *ssa.MakeClosure:
+			cl, _ := x.Fn.(*ssa.Function)
+			if cl == nil {
+				return nil
+			}
+			for j, b := range x.Bindings {
+				if b == ssa.Value(a) && j < len(cl.FreeVars) {
+					if closureStoresToFree(cl, cl.FreeVars[j], map[*ssa.Function]bool{}) != nil {
+						return nil
+					}
+				}
+			}
+		case *ssa.DebugRef:
+		default:
+			return nil
+		}
+	}
+	if n != 1 {
+		return nil
+	}
+	return val
 }
